@@ -116,7 +116,9 @@ func (g s1Gen) query() string {
 	if g.rng.Chance(1, 2) {
 		b.WriteString(" order by id(n)")
 		if g.rng.Bool() {
-			b.WriteString(" desc")
+			b.WriteString(descSpelling(b.Len()))
+		} else {
+			b.WriteString(ascSpelling(b.Len()))
 		}
 		if g.rng.Chance(1, 2) {
 			b.WriteString(" skip " + Pick(g.rng, []string{"0", "1", "2"}))
@@ -172,6 +174,11 @@ func (g s1Gen) s2Query() string {
 	return "match " + a + "-" + r + "->" + b + where + " return " + strings.Join(items, ", ")
 }
 
+// limitHopQuery: stage S2L — an S2b query with LIMIT k and neither ORDER BY nor SKIP (the shape on which limit pushdown fires).
+func (g s1Gen) limitHopQuery() string {
+	return g.s2Query() + " limit " + Pick(g.rng, []string{"0", "1", "1", "2", "3", "5", "50"})
+}
+
 // countQuery: stage S1c — MATCH (n[:K…]) [WHERE p] RETURN count(n) [AS c].
 func (g s1Gen) countQuery() string {
 	var b strings.Builder
@@ -210,7 +217,12 @@ func (g s1Gen) countHopQuery() string {
 }
 
 // chainQuery: stage S2c — a chain of two or three directed fixed hops, kinds optional, no WHERE, every variable read by the RETURN.
-func (g s1Gen) chainQuery() string {
+func (g s1Gen) chainQuery() string { return g.chainQueryW(false) }
+
+// chainWhereQuery: stage S2c with WHERE — 1..4 conjuncts, each an S1 predicate of depth <= 2 over ONE pattern variable.
+func (g s1Gen) chainWhereQuery() string { return g.chainQueryW(true) }
+
+func (g s1Gen) chainQueryW(withWhere bool) string {
 	k := 2 + g.rng.Intn(2)
 	nodes := []string{"a", "b", "c", "d"}[:k+1]
 	rels := []string{"r", "q", "s"}[:k]
@@ -221,6 +233,20 @@ func (g s1Gen) chainQuery() string {
 		if i < k {
 			b.WriteString("-[" + rels[i] + Pick(g.rng, []string{"", "", ":EdgeKind1", ":EdgeKind2", ":EdgeKind1|EdgeKind2"}) + "]->")
 		}
+	}
+	if withWhere {
+		n := 1 + g.rng.Intn(4)
+		cs := make([]string, n)
+		for i := range cs {
+			if g.rng.Chance(2, 3) {
+				v := Pick(g.rng, nodes)
+				cs[i] = s1Gen{rng: g.rng, v: v}.pred(2, 2)
+			} else {
+				v := Pick(g.rng, rels)
+				cs[i] = s1Gen{rng: g.rng, v: v, edge: true}.pred(2, 2)
+			}
+		}
+		b.WriteString(" where " + strings.Join(cs, " and "))
 	}
 	mk := func(v string) string {
 		switch g.rng.Intn(3) {
@@ -277,5 +303,13 @@ func (c01TieSuite) Gen(rng *Rng, tier string, w *bufio.Writer, stats *Stats) {
 	for i := 0; i < n/6; i++ {
 		fmt.Fprintf(w, "# case %d s2n\nq %s %d 4 0 0\n", 2*n+n/6+i+1, jsonQuote(g.countHopQuery()), rng.Intn(1<<20))
 		stats.Inc("s2n_generated")
+	}
+	for i := 0; i < n/6; i++ {
+		fmt.Fprintf(w, "# case %d s2l\nq %s %d 4 0 0\n", 2*n+n/3+i+1, jsonQuote(g.limitHopQuery()), rng.Intn(1<<20))
+		stats.Inc("s2l_generated")
+	}
+	for i := 0; i < n/3; i++ {
+		fmt.Fprintf(w, "# case %d s2cw\nq %s %d 4 0 0\n", 2*n+n/2+i+1, jsonQuote(g.chainWhereQuery()), rng.Intn(1<<20))
+		stats.Inc("s2cw_generated")
 	}
 }
